@@ -475,7 +475,10 @@ def mpi_from_str(s, prec):
     wp = prec + 20
     if "+-" in s:
         x, y = s.split("+-")
-        return mpi_from_str_a_b(x, y, False, prec)
+        percent = y.endswith("%")
+        if percent:
+            y = y[:-1]
+        return mpi_from_str_a_b(x, y, percent, prec)
     # case 2
     elif "(" in s:
         # Don't confuse with a complex number (x,y)
